@@ -14,7 +14,7 @@
    [sha] is any function (crypto/sha256); key u = hex (sha u).
    Kernel semantics of rename(2)/open inodes/O_EXCL are the meaning of the
    events: assumed, not proved (partial). *)
-From NV Require Import Base Generated C14_Model C14_Proofs.
+From NV Require Import Base Generated C14_Model C14_Proofs C14_Audit C14_Free.
 Open Scope string_scope.
 
 (* In every reachable state, at every instant, every directory entry is a
@@ -115,6 +115,100 @@ Theorem C14_model_meets_oracle : forall i, wf i = true -> spec_ok i (model i) = 
 Proof. exact model_spec_ok. Qed.
 Print Assumptions C14_model_meets_oracle.
 
+(* ---- "for that URL": under an injective byte-valued hash (the assumption on crypto/sha256;
+   hex is injective, proved) a hit is the complete content that a writer created and renamed
+   for EXACTLY the URL read ... *)
+Theorem C14_read_url : forall sha,
+  (forall u, bytes (sha u)) -> (forall u v, sha u = sha v -> u = v) ->
+  forall tr s, forallb safe tr = true -> exec sha init tr = Some s ->
+  forall r rr c, getN r (s_r s) = Some rr -> r_st rr = RDone (Hit c) ->
+  exists w t, In (ECreate w (r_url rr) c t) tr /\ In (ERename w) tr /\
+    exists wr, getN w (s_w s) = Some wr /\ w_url wr = r_url rr /\ w_content wr = c.
+Proof. exact read_url_thm. Qed.
+Print Assumptions C14_read_url.
+
+(* ... and a URL for which no writer was ever started reads as a miss, whatever was stored
+   for other URLs *)
+Theorem C14_isolated : forall sha,
+  (forall u, bytes (sha u)) -> (forall u v, sha u = sha v -> u = v) ->
+  forall tr s, forallb safe tr = true -> exec sha init tr = Some s ->
+  forall r rr, getN r (s_r s) = Some rr ->
+  (forall w c t, ~ In (ECreate w (r_url rr) c t) tr) ->
+  forall res, r_st rr = RDone res -> res = Miss.
+Proof. exact isolation_thm. Qed.
+Print Assumptions C14_isolated.
+
+(* ---- "at every instant", reads in progress: a reader that has opened an entry holds a prefix
+   of the COMPLETE content of the writer whose rename put that inode under the key; whatever
+   anybody does afterwards (any continuation tr'), if the read completes it returns exactly
+   that content; and it can complete at once (it is never blocked) *)
+Theorem C14_read_in_progress : forall sha tr s, forallb safe tr = true -> exec sha init tr = Some s ->
+  forall r rr i buf, getN r (s_r s) = Some rr -> r_ino rr = Some i -> r_st rr = RReading buf ->
+  exists wr, getN i (s_w s) = Some wr /\ w_pc wr = PDone /\ In (ERename i) tr /\
+    key sha (w_url wr) = key sha (r_url rr) /\
+    buf = firstn (List.length buf) (w_content wr) /\
+    (forall tr' s' rr' res, forallb safe tr' = true -> exec sha s tr' = Some s' ->
+       getN r (s_r s') = Some rr' -> r_st rr' = RDone res -> res = Hit (w_content wr)) /\
+    (exists s' rr', exec sha s [ERead r (List.length (w_content wr)); EEof r] = Some s' /\
+       getN r (s_r s') = Some rr' /\ r_st rr' = RDone (Hit (w_content wr))).
+Proof. exact read_in_progress_thm. Qed.
+Print Assumptions C14_read_in_progress.
+
+(* ---- nobody is ever blocked, so the safety statements are about runs that exist: at every
+   instant a writer that was neither killed nor failed can run to its end whatever the others
+   did, and then its key denotes its own inode with its complete content and its temporary
+   name is gone ... *)
+Theorem C14_writer_can_finish : forall sha tr s, forallb safe tr = true -> exec sha init tr = Some s ->
+  forall w wr, getN w (s_w s) = Some wr -> (w_pc wr = POpen \/ w_pc wr = PClosed) ->
+  exists s', exec sha s (rest_of w wr) = Some s' /\
+    getS (key sha (w_url wr)) (s_dir s') = Some w /\ getN w (s_ino s') = Some (w_content wr) /\
+    getS (w_tmp wr) (s_dir s') = None.
+Proof. exact writer_can_finish_thm. Qed.
+Print Assumptions C14_writer_can_finish.
+
+(* ... a new writer (unused id, unused temporary name) and a new reader can always start ... *)
+Theorem C14_can_start : forall sha s w u c t r,
+  getN w (s_w s) = None -> getN w (s_ino s) = None -> getS t (s_dir s) = None -> is_temp t = true ->
+  getN r (s_r s) = None ->
+  (exists s', step sha s (ECreate w u c t) = Some s') /\ (exists s', step sha s (EOpen r u) = Some s').
+Proof. exact can_start_thm. Qed.
+Print Assumptions C14_can_start.
+
+(* ... and the functional reading: in ANY state, a complete Set of content c for URL u followed
+   by a complete Get of u returns exactly c *)
+Theorem C14_set_then_get : forall sha s w u c t r,
+  getN w (s_w s) = None -> getN w (s_ino s) = None -> getS t (s_dir s) = None -> is_temp t = true ->
+  getN r (s_r s) = None ->
+  exists s' rr, exec sha s [ECreate w u c t; EWrite w (List.length c); EClose w; ERename w;
+                            EOpen r u; ERead r (List.length c); EEof r] = Some s' /\
+    getN r (s_r s') = Some rr /\ r_st rr = RDone (Hit c).
+Proof. exact set_then_get_thm. Qed.
+Print Assumptions C14_set_then_get.
+
+(* ---- free-running goroutines and processes.  The cases of the storm / random-kill families
+   have no schedule-determined outcome; what the implementation did is judged by [spec_ok] on
+   the API-level history recorded from a global clock.  That oracle accepts EVERY history the
+   semantics can produce: take any run of Part 1 by the writers of a case, decorated with API
+   events placed anywhere the calls allow ([xguard]: a Set is seen to start before its temporary
+   file exists and to return after its rename / its failure, a Get is seen to begin before it
+   opens and to end after it completed; killed writers never return); then the completed reads
+   and the directory of the final state pass [spec_ok] for that history.  Hence a verdict
+   "violation" on a free-running case is behaviour outside the semantics. *)
+Theorem C14_free_runs_meet_oracle : forall i, tmps_ok i = true ->
+  forall xs s M, xexec i init mon0 xs = Some (s, M) ->
+  spec_ok (free_input i xs) (free_obs s) = true.
+Proof. exact free_runs_meet_oracle. Qed.
+Print Assumptions C14_free_runs_meet_oracle.
+
+(* every run of Part 1 by writers of the case has such a decoration (the least one), so this
+   holds for all of them: what any run leaves behind passes the oracle *)
+Theorem C14_all_runs_meet_oracle : forall i, tmps_ok i = true ->
+  forall tr s, exec (sha_of (i_sha i)) init tr = Some s ->
+  forallb safe tr = true -> forallb (declared_b i) tr = true ->
+  run_of (decorate tr) = tr /\ spec_ok (free_input i (decorate tr)) (free_obs s) = true.
+Proof. exact (fun i Tm tr s H S D => conj (run_of_decorate tr) (all_runs_meet_oracle i Tm tr s H S D)). Qed.
+Print Assumptions C14_all_runs_meet_oracle.
+
 (* non-vacuity: two writers of the same URL, a crash, and a reader that opens
    after the first rename and reads in two chunks while the second writer renames *)
 Example C14_example_trace :
@@ -136,3 +230,89 @@ Example C14_example_case :
   model i = mk_obs [1; 2; 1; 3; 4; 2; 3; 4]%N [(0%N, "u", OMiss); (1%N, "u", OHit "b1"); (2%N, "u", OHit "b22")]
                    [("abcd", "b22")].
 Proof. split; vm_compute; reflexivity. Qed.
+
+(* the hypotheses of C14_read_url / C14_isolated are satisfiable: the bytes of the URL itself *)
+Example C14_example_injective_hash :
+  (forall u, bytes (sha_bytes u)) /\ (forall u v, sha_bytes u = sha_bytes v -> u = v).
+Proof. exact (conj sha_bytes_bytes sha_bytes_inj). Qed.
+
+(* the hypotheses of C14_read_decodes are satisfiable *)
+Example C14_example_codec : forall b : data, (fun c => Some c) ((fun b => b) b) = Some b.
+Proof. reflexivity. Qed.
+
+(* temporary names of the real pattern exist, keys of 32-byte hashes are key-shaped *)
+Example C14_example_names :
+  is_temp "notation-3535206514" = true /\ is_temp "notation-" = false /\ is_temp "notation-12a" = false /\
+  is_temp "eb6321dd66d0410def7298da221ab352bd5f6fffc0dc91c9a92518ee67c4ffad" = false /\
+  keyshape (hex (repeat 171%N 32)) = true /\ keyshape "notation-3535206514" = false.
+Proof. vm_compute. repeat split. Qed.
+
+(* the hypotheses of C14_fresh hold of the trace of C14_example_trace (writer 0 renames, then
+   reader 7 opens "u"), and its conclusion is met by writer 2, which renamed in between *)
+Example C14_example_fresh :
+  let tr1 := [ECreate 0 "u" cA tmp1; EWrite 0 3; EWrite 0 1; EClose 0;
+              ECreate 1 "u" cB (tmp_prefix ++ "22" ++ tmp_suffix); EWrite 1 2] in
+  let tr2 := [ECreate 2 "u" cB (tmp_prefix ++ "333" ++ tmp_suffix); EWrite 2 6; EClose 2; ERename 2; ECrash 1] in
+  let tr3 := [ERead 7 4; ECreate 3 "u" cA (tmp_prefix ++ "4" ++ tmp_suffix); EWrite 3 4; EClose 3; ERename 3; ERead 7 9; EEof 7] in
+  exists s wr rr wr', exec sha0 init (tr1 ++ ERename 0 :: tr2 ++ EOpen 7 "u" :: tr3)%list = Some s /\
+    getN 0%N (s_w s) = Some wr /\ key sha0 (w_url wr) = key sha0 "u" /\
+    getN 2%N (s_w s) = Some wr' /\
+    getN 7%N (s_r s) = Some rr /\ r_st rr = RDone (Hit (w_content wr')) /\ In (ERename 2) tr2.
+Proof.
+  cbv zeta. eexists. eexists. eexists. eexists.
+  split; [vm_compute; reflexivity|]. split; [vm_compute; reflexivity|]. split; [reflexivity|].
+  split; [vm_compute; reflexivity|]. split; [vm_compute; reflexivity|]. split; [vm_compute; reflexivity|].
+  vm_compute. tauto.
+Qed.
+
+(* a read in progress and a writer in progress (hypotheses of C14_read_in_progress and
+   C14_writer_can_finish) *)
+Example C14_example_in_progress :
+  let tr := [ECreate 0 "u" cA tmp1; EWrite 0 4; EClose 0; ERename 0; EOpen 5 "u"; ERead 5 1;
+             ECreate 1 "u" cB (tmp_prefix ++ "22" ++ tmp_suffix); EWrite 1 2] in
+  forallb safe tr = true /\
+  exists s rr wr, exec sha0 init tr = Some s /\
+    getN 5%N (s_r s) = Some rr /\ r_ino rr = Some 0%N /\ r_st rr = RReading (firstn 1 cA) /\
+    getN 1%N (s_w s) = Some wr /\ w_pc wr = POpen.
+Proof.
+  cbv zeta. split; [reflexivity|]. eexists. eexists. eexists.
+  split; [vm_compute; reflexivity|]. split; [vm_compute; reflexivity|]. repeat split.
+Qed.
+
+(* fault injection (SF): the rename of writer 1 is made to fail after writer 0 stored b1; Set
+   returns an error (point 5), the temporary file is removed, the entry of writer 0 is
+   undisturbed, a later Set works (32-byte hashes: the key is key-shaped) *)
+Example C14_example_fault_case :
+  let i := mk_input false [("u", repeat 171%N 32)] [(0%N, ("u", "b1")); (1%N, ("u", "b22")); (2%N, ("u", "b333"))]
+             [(0%N, tmp_prefix ++ "17" ++ tmp_suffix); (1%N, tmp_prefix ++ "4" ++ tmp_suffix); (2%N, tmp_prefix ++ "9" ++ tmp_suffix)]
+             [SW 0; SW 0; SW 0; SW 0; SW 1; SW 1; SW 1; SF 1; SR 0 "u"; SW 1; SW 2; SW 2; SW 2; SW 2; SR 1 "u"] in
+  wf i = true /\
+  model i = mk_obs [1; 2; 3; 4; 1; 2; 3; 5; 0; 1; 2; 3; 4]%N [(0%N, "u", OHit "b1"); (1%N, "u", OHit "b333")]
+                   [(hex (repeat 171%N 32), "b333")].
+Proof. split; vm_compute; reflexivity. Qed.
+
+(* a decorated run (C14_Free.ex_history: overlapping writers, a late-finishing reader, returns
+   recorded out of order, a killed writer, a failed writer, a writer that makes older ones
+   stale) is a run, and what it leaves behind is what the theorem speaks about *)
+Example C14_example_free_history :
+  tmps_ok ex_input = true /\
+  option_map (fun sm => free_obs (fst sm)) (xexec ex_input init mon0 ex_history)
+  = Some (mk_obs [] [(6%N, "u", OHit "EE"); (9%N, "u", OHit "AAAA"); (7%N, "v", OMiss); (8%N, "u", OHit "BBBBBB")]
+                 [(ex_ku, "EE"); ("notation-33", "C")]) /\
+  api_of ex_history = [AStart 0; ABeg 9 "u"; AStart 1; ARet 1 true; ARet 0 true; ABeg 8 "u"; AEnd 8; AStart 2;
+                       AStart 3; ARet 3 false; ABeg 7 "v"; AEnd 7; AEnd 9; AStart 4; ARet 4 true; ABeg 6 "u"; AEnd 6] /\
+  ex_verdict (OHit "EE") (OHit "AAAA") [(ex_ku, "EE"); ("notation-33", "C")] = true.
+Proof. repeat split; vm_compute; reflexivity. Qed.
+
+(* the oracle is not trivially true: for the same history it REJECTS a stale bundle (A or B
+   after E's Set returned), a truncated one, the bundle of another URL, a miss after a returned
+   Set, an error, an unknown bundle, a bundle from the future (reader 9 ended before writer 4
+   started), and a key whose file is partial / empty / unknown / another URL's bundle *)
+Example C14_example_oracle_rejects :
+  map (fun x => ex_verdict x (OHit "AAAA") [(ex_ku, "EE")])
+      [OHit "AAAA"; OHit "BBBBBB"; OHit "E"; OHit "DDD"; OMiss; OErr; OCorrupt]
+  = [false; false; false; false; false; false; false] /\
+  ex_verdict (OHit "EE") (OHit "EE") [(ex_ku, "EE")] = false /\
+  map (fun t => ex_verdict (OHit "EE") (OHit "AAAA") [(ex_ku, t)]) ["<"; ""; "?"; "DDD"; "EE"]
+  = [false; false; false; false; true].
+Proof. repeat split; vm_compute; reflexivity. Qed.
